@@ -32,6 +32,9 @@ for d in sorted(glob.glob(os.path.join(V, 'seeded', 'C[0-9][0-9]-[0-9]'))):
             old = json.load(open(mp))
         except Exception:
             old = {}
+    if old.get("manual"):
+        print(name, "(manual meta kept)")
+        continue
     meta = {
         "property": prop,
         "source": "independent sub-agent given only the property text and a scratch worktree (/tmp/seed-%s)" % prop,
